@@ -114,11 +114,30 @@ def run_impl(case, want_log=True):
     except Exception as e:  # conditional_raise surfaces as a runtime error of the callback
         out["static"] = {"raised": True, "x": None, "status": -7, "nit": 0, "fun": 0.0, "error": str(e)[:80]}
     if case.get("trust"):
-        try:
-            r = opt._trust_ncg(f, x0, maxiter=kw["maxiter"] + 3, energy_reduction_factor=kw["erf"], absdelta=kw["absdelta"])
-            out["trust"] = {"raised": False, "x": np.asarray(r.x, float).tolist(), "status": int(r.status), "nit": int(r.nit), "fun": float(r.fun)}
-        except Exception as e:
-            out["trust"] = {"raised": True, "x": None, "status": -7, "nit": 0, "fun": 0.0, "error": str(e)[:80]}
+        # default sub-problem limits and small ones (subproblem_kwargs={"maxiter": k}): with an indefinite Hessian
+        # the iteration limit and the negative-curvature / boundary branches of the sub-problem meet
+        for name, skw in (("trust", None), ("trust_m1", {"maxiter": 1}), ("trust_m2", {"maxiter": 2})):
+            try:
+                r = opt._trust_ncg(f, x0, maxiter=kw["maxiter"] + 3, energy_reduction_factor=kw["erf"], absdelta=kw["absdelta"],
+                                   subproblem_kwargs=skw)
+                out[name] = {"raised": False, "x": np.asarray(r.x, float).tolist(), "status": int(r.status), "nit": int(r.nit), "fun": float(r.fun)}
+            except Exception as e:
+                out[name] = {"raised": True, "x": None, "status": -7, "nit": 0, "fun": 0.0, "error": str(e)[:80]}
+        # the property C17_never_uphill_trust_partial ASSUMES of the sub-problem: predicted value <= current value,
+        # step inside the trust region -- checked here on the implementation at the start point
+        f0, g0 = vg(x0)
+        gm = float(jnp.abs(g0).sum())
+        sub = []
+        for tr in (0.25, 8.0):
+            for mx in (None, 1):
+                try:
+                    sr = cgm._cg_steihaug_subproblem(f0, g0, lambda t: hessp(x0, t), trust_radius=tr, resnorm=min(0.5, math.sqrt(gm)) * gm,
+                                                     norm_ord=1, maxiter=mx)
+                    sub.append({"tr": tr, "maxiter": mx, "pred_f": float(sr.pred_f), "step": np.asarray(sr.step, float).tolist(),
+                                "hits": bool(sr.hits_boundary)})
+                except Exception as e:
+                    sub.append({"tr": tr, "maxiter": mx, "error": str(e)[:80]})
+        out["steihaug"] = {"f0": float(f0), "runs": sub}
     out["log"] = log
     return out
 
@@ -203,7 +222,18 @@ def direct_failures(case, obs, tiefree):
     f0 = f(x0)
     scale = max(1.0, abs(f0))
     fails = []
-    for name in ("eager", "static", "trust"):
+    st = obs.get("steihaug")
+    if st:
+        for r in st["runs"]:
+            if "error" in r:
+                fails.append(("steihaug", "sub-problem raised: %s" % r["error"]))
+                continue
+            # a NaN prediction (zero gradient: 0/0) cannot be accepted (`rho > eta` is False for NaN) and is harmless
+            if r["pred_f"] > st["f0"] + 1e-10 * max(1.0, abs(st["f0"])):
+                fails.append(("steihaug", "sub-problem (trust_radius %g, maxiter %s) predicts %.12g above the current value %.12g" % (r["tr"], r["maxiter"], r["pred_f"], st["f0"])))
+            if max((abs(v) for v in r["step"] if math.isfinite(v)), default=0.0) > r["tr"] * (1 + 1e-9):
+                fails.append(("steihaug", "sub-problem step %s leaves the trust region %g" % (r["step"], r["tr"])))
+    for name in ("eager", "static", "trust", "trust_m1", "trust_m2"):
         o = obs.get(name)
         if o is None or o["raised"]:
             continue
@@ -406,7 +436,7 @@ class C17(C.Check):
     def correspondence(self, ctx, res):
         corpus = [c for c in ctx.corpus()]
         self.cases = corpus + gen_cases(ctx)
-        self.obs = [run_impl(c) for c in self.cases]
+        self.obs = K15.run_cases(self.cases, module="harness.props.c17", prop="C17", chunk=30, jobs=4)
         self.tf = [tie_free(c, o) for c, o in zip(self.cases, self.obs)]
         idx = [i for i, c in enumerate(self.cases) if c["obj"]["type"] == "poly" and self.tf[i]]
         checks = [check_term(self.cases[i], self.obs[i]) for i in idx]
@@ -451,8 +481,8 @@ class C17(C.Check):
             nev += 1
             report(c, o, t)
         if budget > 1 and not res.failing:
-            for c in gen_cases(ctx, salt=1717, ncase=60):
-                o = run_impl(c)
+            extra = gen_cases(ctx, salt=1717, ncase=60)
+            for c, o in zip(extra, K15.run_cases(extra, module="harness.props.c17", prop="C17", chunk=30, jobs=4)):
                 nev += 1
                 report(c, o, tie_free(c, o))
                 if res.failing:
@@ -466,3 +496,8 @@ class C17(C.Check):
 
 
 CHECK = C17()
+
+if __name__ == "__main__":
+    import sys
+    if len(sys.argv) >= 4 and sys.argv[1] == "--worker":
+        K15.worker_main(sys.argv[2:4], run_impl)
